@@ -4,6 +4,7 @@ CONSTANTS
   SpanU <- SpanUQ
   MaxDirs = 2
   Handles = {1, 2}
+  KVals = {"1", "2"}
   SkipOffPush = TRUE
 INVARIANTS EventsExact
 CHECK_DEADLOCK FALSE
